@@ -812,17 +812,35 @@ def apply_renames(u, ref, cur, name, log):
     r2c = dict(al)
     # a rename is only recognised when the new name is FRESH (does not occur in the reference at all): statements that were
     # merely reordered align `a_up` with `a_low` and must not be mistaken for a swap of names
-    ref_idents = {t[1] for t in ref if t[0] == "ident"}
+    # a rename old -> new is only recognised by its full signature: `new` is FRESH (occurs nowhere in the reference), `old` has
+    # VANISHED (occurs nowhere in the current stream), every aligned occurrence of `old` became `new`, and no other name became
+    # `new`. Reordered or inserted statements align unrelated identifiers with each other and never look like that.
+    ref_idents = {t[1] for k, t in enumerate(ref) if t[0] == "ident" and not (k > 0 and ref[k - 1][1] == ".")}      # field / method names do not count
+    cur_idents = {t[1] for k, t in enumerate(cur) if t[0] == "ident" and not (k > 0 and cur[k - 1][1] == ".")}
+    seen = {}
+    for a, b in al:
+        if ref[a][0] == "ident" and ref[a][1] not in _KEYWORDS and not (a > 0 and ref[a - 1][1] == "."):
+            seen.setdefault(ref[a][1], set()).add(cur[b][1])
+    # (a name that is bound twice — a local and a closure parameter `y1` — may become two fresh names; the occurrence nearest
+    # before the position of a contract section then decides)
+    good = {o: ns for o, ns in seen.items() if o not in cur_idents and o not in ns and all(n not in ref_idents for n in ns)}
+    inv = {}
+    for o, ns in good.items():
+        for n in ns:
+            inv.setdefault(n, set()).add(o)
+    good = {o: ns for o, ns in good.items() if all(len(inv[n]) == 1 for n in ns)}
     occ = {}
     for a, b in al:
-        if ref[a][0] == "ident" and ref[a][1] not in _KEYWORDS:
-            n = cur[b][1]
-            occ.setdefault(ref[a][1], []).append((a, n if (n == ref[a][1] or n not in ref_idents) else ref[a][1]))
+        if ref[a][0] == "ident" and ref[a][1] not in _KEYWORDS and not (a > 0 and ref[a - 1][1] == "."):
+            o = ref[a][1]
+            occ.setdefault(o, []).append((a, cur[b][1] if o in good else o))
     if not any(o != n for o, lst in occ.items() for _, n in lst):
         return u, False
     loops = [k for k, t in enumerate(ref) if t[0] == "ident" and t[1] in ("for", "while", "loop")]
     zips = [k for k, t in enumerate(ref) if t == ("ident", "Zip") and k + 2 < len(ref) and ref[k + 1][1] == "::" and ref[k + 2][1] == "from"]
     body0 = next((k for k, t in enumerate(ref) if t[1] == "{"), 0)
+
+    changed = {}
 
     def relocate(anchor):
         want = [t.text for t in lex(anchor) if t.kind not in ("ws", "comment")]
@@ -836,9 +854,11 @@ def apply_renames(u, ref, cur, name, log):
         for d, k in enumerate(idx):
             if cur[k][1] != want[d] and not (cur[k][0] == "ident" and ref[hits[0] + d][0] == "ident" and cur[k][1] not in ref_idents):
                 return anchor, hits[0]
-        return " ".join(cur[k][1] for k in idx), hits[0]
+        newa = " ".join(cur[k][1] for k in idx)
+        if newa.split() != want:
+            changed["<anchor> " + " ".join(want)] = newa
+        return newa, hits[0]
 
-    changed = {}
     all_idents = set()
     for sct in u["sections"]:
         for ln in sct["lines"]:
@@ -891,7 +911,7 @@ def apply_renames(u, ref, cur, name, log):
         sct["lines"] = [rename_text(ln, pos) for ln in sct["lines"]]
     if changed:
         log.append("R11 %s: contract identifiers follow the renames %s" % (name, ", ".join("%s->%s" % kv for kv in sorted(changed.items()))))
-    return u2, True
+    return (u2, True) if changed else (u, False)
 
 
 def emit_unit(em, repo, u, type_table, log, assumed=False):
@@ -905,6 +925,7 @@ def emit_unit(em, repo, u, type_table, log, assumed=False):
     toks = src.toks
     # R11: contracts follow consistent renames of parameters / locals / closure parameters (reference stream in contracts/refs)
     refp = os.path.join(REFS, os.path.basename(u["path"]) + ".json")
+    _ch = False
     if os.path.exists(refp) and not assumed:
         import json as _json
         u, _ch = apply_renames(u, [tuple(x) for x in _json.load(open(refp))], _sig_pairs(toks[f["kfn"]:f["b_close"] + 1]), name, log)
@@ -1067,7 +1088,7 @@ def emit_unit(em, repo, u, type_table, log, assumed=False):
                 em.add("    proof { " + " ".join(x.strip() for x in s["lines"]) + " }", kind="meta", unit=cn)
         em.add("}", kind="canary", unit=cn)
     import hashlib
-    return dict(canary=has_canary, unit=name, file=h["file"], fn=h["fn"], impl=h.get("impl"), lines=[f["line0"], f["line1"]], closures=n_closures,
+    return dict(canary=has_canary, unit=name, file=h["file"], fn=h["fn"], impl=h.get("impl"), lines=[f["line0"], f["line1"]], closures=n_closures, r11=bool(_ch),
                 sha256=hashlib.sha256(text_of(toks[block[0]:block[1] + 1] if block else toks[f["kfn"]:f["b_close"] + 1]).encode()).hexdigest()[:16])
 
 
